@@ -54,7 +54,7 @@ def execute(case, prefix, seed):
             si = node.get_storage_index()
             shares = lib_mut.mutable_shares(g, si)
             vs = lib_mut.versions(shares)
-            newest = max(vs, key=lambda v: v[0])
+            newest = max(vs, key=lambda v: v[0]) if vs else (None, None)
             holders = set(sh for (sv, sh), p in shares.items() if (p["seqnum"], p["root_hash"]) == newest and (sv, sh) in acked)
             obs["acked_shnums"] = len(holders)
             if len(holders) < k:
